@@ -25,21 +25,21 @@ theorem ofNat_eq_iff (n : Nat) (a : UInt8) : UInt8.ofNat n = a ↔ n % 256 = a.t
 
 /-! ### base64_decode_single by class of the character -/
 
-theorem single_invalid {c : UInt8} (h : tableAt c = -1) (ctx : DecCtx) : decodeSingle ctx c = (ctx, .err) := by
+theorem single_invalid {c : UInt8} (h : tableAt c = -1) (lim : Nat) (ctx : DecCtx) : decodeSingle lim ctx c = (ctx, .err) := by
   simp [decodeSingle, h]
 
-theorem single_ws {c : UInt8} (h : tableAt c = -2) (ctx : DecCtx) : decodeSingle ctx c = (ctx, .none) := by
+theorem single_ws {c : UInt8} (h : tableAt c = -2) (lim : Nat) (ctx : DecCtx) : decodeSingle lim ctx c = (ctx, .none) := by
   simp [decodeSingle, h]
 
-theorem single_pad {c : UInt8} (h : tableAt c = -3) (ctx : DecCtx) :
-    decodeSingle ctx c =
-      if ctx.bits = 0 ∨ ctx.padding > 2 then (ctx, .err)
+theorem single_pad {c : UInt8} (h : tableAt c = -3) (lim : Nat) (ctx : DecCtx) :
+    decodeSingle lim ctx c =
+      if ctx.bits = 0 ∨ ctx.padding ≥ lim then (ctx, .err)
       else if ctx.word % 2 ^ ctx.bits ≠ 0 then (ctx, .err)
       else ({ ctx with padding := (ctx.padding + 1) % 256, bits := (ctx.bits + 256 - 2) % 256 }, .none) := by
   simp [decodeSingle, h, and_mask]
 
-theorem single_data {c : UInt8} {v : Nat} (h : tableAt c = (v : Int)) (hv : v < 64) (ctx : DecCtx) :
-    decodeSingle ctx c =
+theorem single_data {c : UInt8} {v : Nat} (h : tableAt c = (v : Int)) (hv : v < 64) (lim : Nat) (ctx : DecCtx) :
+    decodeSingle lim ctx c =
       if ctx.padding ≠ 0 then (ctx, .err)
       else if (ctx.bits + 6) % 256 ≥ 8 then
         ({ ctx with word := (ctx.word * 64 + v) % 65536, bits := (ctx.bits + 6) % 256 - 8 },
